@@ -30,7 +30,7 @@ From AV Require Import Base.Bytes Base.Outcome Hash.HashModel Tree.Heap Tree.Ops
   Tree.MergeSpec Tree.MergePure Tree.LoadProofs Tree.LoadProofsWalk Tree.LoadProofsRefuted
   Tree.MergePureProofsBase Tree.MergePureProofs Tree.MergePureProofsMain Tree.MergePureProofsKeys
   Tree.LoadRefineBase Tree.LoadRefinePure Tree.LoadRefineHeap Tree.LoadRefineMain Tree.LoadRefineGood Tree.LoadRefineTop
-  Tree.LoadEffects Tree.MergeGoodExamples Tree.LoadResidue.
+  Tree.LoadEffects Tree.MergeGoodExamples Tree.LoadResidue Tree.LoadRefineIndex.
 From AV Require Xml.Lexer Xml.Parser.
 Open Scope N_scope.
 
@@ -452,3 +452,77 @@ Theorem C11_load_reject_quiet_examples :
   quiet_load TinyM.tiny TinyM.LATEST TinyM.DEFREF 0 (BS "b") QuietExample.conf_b
              (pstate_of TinyM.tiny 2 QuietExample.conf_b) (QuietExample.after QuietExample.conf_a) = false.
 Proof. exact (conj QuietExample.quiet_yes QuietExample.quiet_no). Qed.
+
+(* ====================================================================== C09 without conditions on the outcome of the loads *)
+(* ---- [U over tables, worlds, masters of the class, splits, buffers] as C09_merge_union, but EVERY load returns OK:
+        the model is empty (no files, empty path index), the buffers parse to the views of the master M (class Good, one
+        version v) and the parser state records exactly the named elements and references of the parsed tree (StOf — what
+        MergeSpec.pstate_of models; the relation to the real parser is C02/C08's), the file names are pairwise distinct,
+        and the paths of M are consistent (PathsOK: over all views, a path names elements of one kind only, and no view
+        has a path twice — decidable: C09_paths_ok_decidable).  Then the duplicate-file-name check, the overlap check
+        and the merge cannot reject any load, the index fills return, and the conclusions of C09_merge_union hold. *)
+Theorem C09_merge_union_total :
+  forall (T : tables) (tab_el tab_at tab_en : nametab) (check_fn : N -> list N -> res bool)
+         (float_parse : list N -> option N) (LATEST defref v : N)
+         (M : mtree) (m : N) (x : model) (w0 : world) (n : nat) (strict : bool)
+         (bufs : list (list N * list N)) (items : list item),
+    Good T defref v M ->
+    nth_opt (w_models w0) (N.to_nat m) = Some x -> m_files x = [] -> m_idents x = [] ->
+    let gs := n_range (S n) (N.of_nat (List.length (w_files w0))) in
+    Forall2 (parses_to T tab_el tab_at tab_en check_fn float_parse strict) bufs items ->
+    Forall2 (fun g it => is_view v M g it /\ StOf T (snd it) (snd (fst it))) gs items ->
+    NoDup (map snd bufs) ->
+    (forall g, In g gs -> In g (mfiles M)) -> PathsOK T M gs ->
+    exists os w,
+      load_bufs T tab_el tab_at tab_en check_fn float_parse LATEST defref m strict bufs w0 = Val (os, w) /\
+      Forall2 (fun g o => exists ws, o = OK (g, ws)) gs os /\
+      exists ta, ModelTree w m ta gs /\ abs_model w m = Some (erase ta) /\
+                 Rep T (rev gs) None M (erase ta) /\
+                 (covers gs M -> hperm (erase ta) (expected None M)) /\
+                 (forall f, In f gs -> hperm (hproj f (erase ta)) (pview f M)).
+Proof. exact heap_union_buffers_total. Qed.
+
+(* the same for the load sequence of C09_full (load_parsed on the projected views with the parser state pstate_of):
+   its conclusion, for masters of the class Good with consistent paths and one version *)
+Theorem C09_merge_union_views_total :
+  forall (T : tables) (LATEST defref v : N) (M : mtree) (m : N) (x : model) (w0 : world) (n : nat),
+    Good T defref v M ->
+    nth_opt (w_models w0) (N.to_nat m) = Some x -> m_files x = [] -> m_idents x = [] ->
+    let gs := n_range (S n) (N.of_nat (List.length (w_files w0))) in
+    (forall g, In g gs -> In g (mfiles M)) -> PathsOK T M gs ->
+    exists os w,
+      load_views T LATEST defref m M (fun _ => v) gs w0 = Val (os, w) /\ Forall2 (fun g o => o = OK g) gs os /\
+      exists ta, ModelTree w m ta gs /\ abs_model w m = Some (erase ta) /\
+                 Rep T (rev gs) None M (erase ta) /\
+                 (covers gs M -> hperm (erase ta) (expected None M)) /\
+                 (forall f, In f gs -> hperm (hproj f (erase ta)) (pview f M)).
+Proof. exact heap_union_views_total. Qed.
+
+(* one load, unconditionally: a further file of a model whose path index only names elements of the kinds in S *)
+Theorem C09_load_refines_total :
+  forall (T : tables) (LATEST defref : N) (S : list (list N * N)) (m : N) (filename : list N) (root : Parser.etree)
+         (st : Parser.pstate) (w : world) (ta : atree) (files : list N) (P : htree -> Prop),
+    ModelTree w m ta files -> files <> [] ->
+    IdxNames S w m -> Functional S -> StOf T st root -> NamesIn T S root -> KeysNoDup T root ->
+    let fid := N.of_nat (List.length (w_files w)) in
+    let fl := mkFile m filename (Parser.p_version st) (Parser.p_standalone st) in
+    let fver := fver_files (w_files w ++ [fl]) in
+    (forall fuel, (adepth ta < fuel)%nat ->
+       Clean T LATEST defref fver fuel (erase ta) (fold_right set_add [] files) (htree_of_etree root) fid /\
+       exists ha', pmerge T LATEST defref fver fuel (erase ta) (fold_right set_add [] files) (htree_of_etree root) fid = Val (OK ha') /\
+                   P ha') ->
+    exists w', load_parsed T LATEST defref m filename root st w = Val (OK fid, w') /\ IdxNames S w' m /\
+               w_files w' = w_files w ++ [fl] /\
+               exists ta' ha', ModelTree w' m ta' (files ++ [fid]) /\ erase ta' = h_set_local ha' (set_add fid (h_local ha')) /\ P ha'.
+Proof. exact load_parsed_merge_total. Qed.
+
+(* the side condition is decidable, and the tiny master has it; the unconditional theorem instantiated *)
+Theorem C09_paths_ok_decidable :
+  forall (T : tables) (M : mtree) (gs : list N), paths_okb T M gs = true -> PathsOK T M gs.
+Proof. exact paths_okb_sound. Qed.
+Theorem C09_example_union_total :
+  exists os w,
+    load_views TinyM.tiny TinyM.LATEST TinyM.DEFREF 0 TinyM.master (fun _ => 2) [0; 1] TinyM.new_world = Val (os, w) /\
+    Forall2 (fun g o => o = OK g) [0; 1] os /\
+    exists ta, abs_model w 0 = Some (erase ta) /\ hperm (erase ta) (expected None TinyM.master).
+Proof. exact tiny_union_total. Qed.
